@@ -21,26 +21,31 @@ def _bs(tr, n, obj, args, argnodes):
 UNIT = {
     'name': 'nodetasks',
     'source': 'lib/BuildSystem/BuildSystem.cpp',
-    'dumps': ['FileInputNodeTask', 'ProducedNodeTask', 'MissingCommandTask', 'TargetTask', 'CommandTask', 'BuildValue::Kind', 'buildsystem::BuildValue', 'BuildNode::NodeType', 'buildsystem::BuildNode'],
-    'types': {'StringRef': 'strref', 'basic::FileInfo': 'struct FileInfo', 'FileInfo': 'struct FileInfo', 'BuildValue::FileInfo': 'struct FileInfo', 'buildsystem::BuildValue::FileInfo': 'struct FileInfo',
+    'dumps': ['FileInputNodeTask', 'ProducedNodeTask', 'ProducedDirectoryNodeTask', 'MissingCommandTask', 'TargetTask', 'CommandTask', 'BuildValue::Kind', 'buildsystem::BuildValue', 'BuildNode::NodeType', 'buildsystem::BuildNode'],
+    'types': {'BuildKey': 'struct valuedata', 'StringList': 'struct StringList', 'basic::StringList': 'struct StringList', 'StringRef': 'strref', 'basic::FileInfo': 'struct FileInfo', 'FileInfo': 'struct FileInfo', 'BuildValue::FileInfo': 'struct FileInfo', 'buildsystem::BuildValue::FileInfo': 'struct FileInfo',
               'TaskInterface': 'struct TaskInterface', 'core::TaskInterface': 'struct TaskInterface', 'ValueType': 'struct valuedata', 'core::ValueType': 'struct valuedata', 'KeyType': 'struct valuedata', 'core::KeyType': 'struct valuedata'},
     'type_patterns': [(r'(std::)?vector<(unsigned char|uint8_t).*>', 'struct valuedata'), (r'(llvm::)?SmallPtrSet<(buildsystem::)?Node \*, \d+>', 'struct nodeset'), (r'(std::)?vector<(buildsystem::)?Node \*.*>', 'struct nodelist')],
     'by_value': ['strref', 'struct FileInfo', 'struct TaskInterface', 'struct BuildValue', 'struct valuedata'],
-    'predefined_structs': ['FileInfo', 'TaskInterface', 'valuedata', 'nodeset', 'nodelist'],
-    'struct_extra': {'BuildNode': '  size_t g_idx;\n', 'FileSystem': '', 'BuildValue': '  unsigned g_n;\n  const void *g_src;\n'},
-    'need_fields': {'BuildValue': ['kind'], 'ProducedNodeTask': ['isInvalid', 'nodeResult', 'producingCommand', 'node'], 'FileInputNodeTask': ['node']},
-    'ref_fields': ['FileInputNodeTask::node', 'ProducedNodeTask::node', 'TargetTask::target', 'CommandTask::command'],
-    'no_translate': ['providePriorValue', 'provideValue', 'getNodes', 'getFileInfo', 'getNthOutputInfo', 'getOutputInfo', 'getNumOutputs', 'getFileSystem', 'getBuildSystem', 'getDelegate', 'hadCommandFailure', 'complete', 'toData', 'fromData', 'getResultForOutput'],
+    'predefined_structs': ['FileInfo', 'TaskInterface', 'valuedata', 'nodeset', 'nodelist', 'StringList'],
+    'struct_extra': {'Node': '  strref g_name;\n', 'BuildNode': '  size_t g_idx;\n', 'FileSystem': '', 'BuildValue': '  unsigned g_n;\n  const void *g_src;\n'},
+    'need_fields': {'BuildValue': ['kind'], 'ProducedNodeTask': ['isInvalid', 'nodeResult', 'producingCommand', 'node'], 'ProducedDirectoryNodeTask': ['isInvalid', 'nodeResult', 'producingCommand', 'node', 'directorySignature', 'returnDirectorySignature'], 'FileInputNodeTask': ['node']},
+    'ref_fields': ['FileInputNodeTask::node', 'ProducedNodeTask::node', 'ProducedDirectoryNodeTask::node', 'TargetTask::target', 'CommandTask::command'],
+    'no_translate': ['getName', 'endswith', 'substr', 'request', 'makeDirectoryTreeSignature', 'providePriorValue', 'provideValue', 'getNodes', 'getFileInfo', 'getNthOutputInfo', 'getOutputInfo', 'getNumOutputs', 'getFileSystem', 'getBuildSystem', 'getDelegate', 'hadCommandFailure', 'complete', 'toData', 'fromData', 'getResultForOutput'],
     'calls': {
         'm:BuildValue::getOutputInfo': 'verif_stored_info0', 'm:BuildNode::getFileInfo': 'verif_current_info',
         'm:@struct FileInfo::isMissing': '($o->missing != 0)', 'o:==:@struct FileInfo': 'verif_info_eq', 'm:BuildSystem::getFileSystem': 'verif_fs', 'fn:getBuildSystem': _bs,
         'm:BuildSystem::getDelegate': 'verif_delegate', 'm:BuildSystemImpl::getDelegate': 'verif_delegate', 'm:BuildSystemImpl::getFileSystem': 'verif_fs', 'm:BuildSystemDelegate::hadCommandFailure': 'verif_had_failure',
         'm:TaskInterface::complete': 'ti_complete', 'm:@struct TaskInterface::complete': 'ti_complete', 'm:BuildValue::toData': 'bv_to_data', 'm:@struct BuildValue::toData': 'bv_to_data',
         'm:BuildValue::fromData': 'bv_from_data', 'fn:fromData': 'bv_from_data', 'm:Command::getResultForOutput': 'verif_result_for_output', 'm:Command::providePriorValue': 'verif_cmd_prior', 'm:Command::provideValue': 'verif_cmd_provide', 'm:BuildSystemImpl::getBuildSystem': 'verif_outer_bs',
+        'm:Node::getName': 'node_name', 'm:@strref::endswith': 'name_endswith', 'm:StringRef::endswith': 'name_endswith', 'o:!=:StringRef': 'name_ne_root', 'o:!=:@strref': 'name_ne_root', 'fn:operator!=': 'name_ne_root',
+        'm:@strref::substr': 'name_substr', 'm:StringRef::substr': 'name_substr', 'm:@strref::size': '($o->len)', 'm:StringRef::size': '($o->len)', 'o:=:StringRef': '(*$o = $0)', 'o:=:@strref': '(*$o = $0)',
+        'fn:makeDirectoryTreeSignature': 'key_treesig_v', 'm:BuildKey::makeDirectoryTreeSignature': 'key_treesig_v', 'm:BuildKey::toData': '(*$o)', 'm:@struct valuedata::toData': '(*$o)',
+        'm:TaskInterface::request': 'ti_request_v', 'm:@struct TaskInterface::request': 'ti_request_v', 'o:=:@struct valuedata': '(*$o = $0)',
         'm:Target::getNodes': 'verif_target_nodes', 'o:[]:@struct nodelist': 'nodelist_at($o, $0)', 'm:@struct nodeset::insert': ('nodeset_insert', 'v'), 'o:=:@struct BuildValue': '(*$o = $0)',
     },
     'call_patterns': [(r'fn:make[A-Z].*', _mk), (r'm:BuildValue::make[A-Z].*', _mk), (r'c:(buildsystem::)?BuildValue\((buildsystem::)?BuildValue &&\)', '$0'), (r'c:(basic::)?FileInfo\((const )?(basic::)?FileInfo &+\)', '$0'),
-                      (r'o:=:BuildValue', '(*$o = $0)')],
+                      (r'o:=:BuildValue', '(*$o = $0)'), (r'c:StringRef\(const char \*\)', '$0'), (r'c:StringRef\(const StringRef &\)', '$0'), (r'c:(basic::)?StringList/0', 'strlist_empty'), (r'c:(basic::)?StringList\(\)', 'strlist_empty'),
+                      (r'c:(core::)?ValueType\(const .*&\)', '$0'), (r'c:(std::)?vector<(unsigned char|uint8_t).*>\(const .*&\)', '$0')],
     'prelude': '#include "models/base.h"\n#include "models/vec.h"\n#include "models/extresult.h"\nstruct valuedata { int kind; const void *src; };\nstruct nodeset { unsigned n; const void *last; }; struct nodelist { char _e; };\n',
     'after_structs': '#include "models/nodetasks_after.h"\n',
     'functions': {
@@ -51,7 +56,7 @@ UNIT = {
             'ensures': [('P:C08', '(RESULT != 0) == (g_current[0].missing ? value.kind == %sMissingInput : (value.kind == %sExistingInput && g_stored[0].id == g_current[0].id && g_stored[0].size == g_current[0].size && !g_stored[0].missing))' % (K, K))]},
         'FileInputNodeTask::inputsAvailable': {
             'requires': ['__CPROVER_is_fresh(self, sizeof(*self))', '__CPROVER_is_fresh(self->node, sizeof(*self->node))', 'self->node->g_idx == 0', 'g_completes == 0'],
-            'assigns': ['g_completes', 'g_complete_kind', 'g_existing_info', 'g_complete_force'],
+            'assigns': ['g_completes', 'g_complete_kind', 'g_existing_info', 'g_complete_force', 'g_complete_src'],
             # the value built for a source file is "missing" or the file's CURRENT information, completed exactly once
             'ensures': [('P:C08', 'g_completes == 1 && (g_current[0].missing ? g_complete_kind == %sMissingInput : (g_complete_kind == %sExistingInput && g_existing_info.id == g_current[0].id && g_existing_info.size == g_current[0].size))' % (K, K))]},
         'ProducedNodeTask::isResultValid': {
@@ -65,13 +70,13 @@ UNIT = {
             'ensures': [('P:C08,P:C10', 'g_rfo_calls == 1 && g_rfo_node == (const void *)self->node && g_rfo_value_src == valueData.src && self->nodeResult.kind == g_rfo_kind')]},
         'ProducedNodeTask::inputsAvailable': {
             'requires': ['__CPROVER_is_fresh(self, sizeof(*self))', 'g_completes == 0 && g_failures == 0', 'self->nodeResult.kind >= 0 && self->nodeResult.kind <= 20'],
-            'assigns': ['g_completes', 'g_complete_kind', 'g_failures', 'g_complete_force'],
+            'assigns': ['g_completes', 'g_complete_kind', 'g_failures', 'g_complete_force', 'g_complete_src'],
             'ensures': [
                 # a node that cannot be produced fails the build and yields a failed input (never a stale or invented value)
                 ('P:C10', 'self->isInvalid ? (g_failures == 1 && g_completes == 1 && g_complete_kind == %sFailedInput) : (g_failures == 0 && g_completes == 1 && g_complete_kind == (int)self->nodeResult.kind)' % K)]},
         # a command that is no longer in the description builds to an invalid value and forces its former consumers to re-run
         'MissingCommandTask::inputsAvailable': {
-            'requires': ['g_completes == 0'], 'assigns': ['g_completes', 'g_complete_kind', 'g_complete_force'],
+            'requires': ['g_completes == 0'], 'assigns': ['g_completes', 'g_complete_kind', 'g_complete_force', 'g_complete_src'],
             'ensures': [('P:C08', 'g_completes == 1 && g_complete_kind == BuildValue_Kind_Invalid && g_complete_force')]},
         # a target is re-evaluated in every build
         'TargetTask::isResultValid': {'requires': [], 'assigns': [], 'ensures': [('P:C08', '!RESULT')]},
@@ -87,5 +92,24 @@ UNIT = {
         'CommandTask::provideValue': {
             'requires': ['__CPROVER_is_fresh(self, sizeof(*self))', '__CPROVER_is_fresh(self->command, 1)', 'g_provide_calls == 0'], 'assigns': ['g_provide_calls', 'g_fwd_src', 'g_fwd_id'],
             'ensures': [('P:C10,P:C08', 'g_provide_calls == 1 && g_fwd_src == valueData.src && g_fwd_id == inputID')]},
+        # a produced DIRECTORY node: only when its producer really produced it (an existing input) is the tree signature requested and returned; a failed,
+        # skipped or missing producer result is passed on as it is (a failed input never turns into a signature that would let consumers run)
+        'ProducedDirectoryNodeTask::provideValue': {
+            'requires': ['__CPROVER_is_fresh(self, sizeof(*self))', '__CPROVER_is_fresh(self->node, sizeof(struct Node))', '__CPROVER_is_fresh(self->producingCommand, 1)', 'g_rfo_calls == 0 && g_nreq == 0', 'g_rfo_kind >= 0 && g_rfo_kind <= 20'],
+            'assigns': ['self->nodeResult', 'self->directorySignature', 'self->returnDirectorySignature', 'g_rfo_calls', 'g_rfo_node', 'g_rfo_value_src', 'g_nreq', 'g_req_id0', 'g_req_kind0', 'g_req_path0'],
+            'ensures': [
+                ('P:C10,P:C08', '(inputID == 0) ==> (g_rfo_calls == 1 && g_rfo_node == (const void *)self->node && self->nodeResult.kind == g_rfo_kind)'),
+                ('P:C10,P:C08', '(inputID == 0) ==> ((g_rfo_kind == BuildValue_Kind_ExistingInput) ? (g_nreq == 1 && g_req_id0 == 1 && g_req_kind0 == -2 && g_req_path0 == self->node->g_name.ptr && self->returnDirectorySignature) '
+                                ': (g_nreq == 0 && self->returnDirectorySignature == OLD(self->returnDirectorySignature)))'),
+                ('P:C08', '(inputID == 1) ==> (self->directorySignature.src == valueData.src && g_nreq == 0 && g_rfo_calls == 0)'),
+                ('P:C08', '(inputID > 1) ==> (g_nreq == 0 && g_rfo_calls == 0 && self->directorySignature.src == OLD(self->directorySignature.src))')]},
+        'ProducedDirectoryNodeTask::inputsAvailable': {
+            'requires': ['__CPROVER_is_fresh(self, sizeof(*self))', 'g_completes == 0 && g_failures == 0', 'self->nodeResult.kind >= 0 && self->nodeResult.kind <= 20'],
+            'assigns': ['g_completes', 'g_complete_kind', 'g_complete_src', 'g_failures', 'g_complete_force'],
+            'ensures': [('P:C10,P:C08', 'g_completes == 1 && (self->returnDirectorySignature ? (g_complete_src == self->directorySignature.src && g_failures == 0) : '
+                                        'self->isInvalid ? (g_failures == 1 && g_complete_kind == BuildValue_Kind_FailedInput) : (g_failures == 0 && g_complete_kind == (int)self->nodeResult.kind))')]},
+        'ProducedDirectoryNodeTask::isResultValid': {
+            'requires': ['value.kind >= 0 && value.kind <= 20'], 'assigns': [],
+            'ensures': [('P:C10,P:C08', '(RESULT != 0) == (value.kind != BuildValue_Kind_FailedInput && value.kind != BuildValue_Kind_MissingInput)')]},
     },
 }
